@@ -3,6 +3,7 @@ import TsVerif.C04.LemmasIter
 import TsVerif.C04.Judge
 import TsVerif.C04.Geometry
 import TsVerif.C04.Ends
+import TsVerif.C04.Reach
 /-!
 # C04 — Changed ranges cover every position whose ancestor chain changed
 
@@ -43,11 +44,13 @@ on every real case; JUDGED = decided on every real output by the Lean judge `Jud
      case with the judge's stacks): every differing byte in `[loopStart, walk end)` and every byte of the pre-call
      `[min root start, max root start)` and of the post-call `[min total, max total)` is reported.
      Rests on `spans_contiguous` (PROVED for all pairs), `spans_forward`, `trace_grows`.
-     GAPS against the English, all decided by the judge instead: (a) bytes before both root starts and after both
-     trees (no node encloses them in either tree: stacks equal by the judge's definition); (b) that the walk's end
-     reaches the end of the shorter tree is not proved (needs a visible-depth invariant of `ascendTo`); the driver
-     evaluates it per case (`reach`); (c) "character" = byte here, and a character's bytes share their stacks only if
-     no node boundary splits a character (true for trees of valid parses; judged per byte).
+     `changed_covers_all` (+ `walk_reaches_end`, premise `rootOK`: both roots visible, sizes < 2^32): the same for
+     EVERY byte from the start of the earlier root to the end of the longer tree — the walk does not stop before the
+     end of the shorter tree (`Reach.lean`), so nothing between the loop start and the post-call is left out.
+     Remaining differences to the English, decided by the judge: (a) bytes before both root starts and after both
+     trees (no node encloses them in either tree: stacks equal by the judge's definition); (b) "character" = byte
+     here, and a character's bytes share their stacks only if no node boundary splits a character (true for trees of
+     valid parses; judged per byte).
    * JUDGED on every real output: `firstUncovered` over per-byte scope stacks computed from full dumps
      (alias rule of `tree_cursor.c` included).
 4. "This also holds when the included ranges changed between the two parses"
@@ -305,6 +308,57 @@ theorem changed_covers {α : Type} (al : AliasTable) (fixed : Bool) (old new : T
   changed_covers_partial al fixed old new diffs so sn
     (trace_grows al fixed old new diffs hso hsn hentry hfuel)
     (spans_forward al fixed old new diffs hso hsn hentry hfuel) hsound
+
+
+/-- `walk_reaches_end` (`reach`): under the premises of `changed_sorted_bounded` and with visible roots (`rootOK`; also
+bounds the tree sizes by 2^32 so that `visible_depth` cannot wrap), the lock-step walk does not stop before the end of
+the shorter tree.  Rests on the depth invariant of the cursors (`Reach.lean`: `Wd` — `visible_depth` is the number of
+entered visible entries; `ascend_w`: a cursor in a padding never leaves the first child of an entered visible node, so
+`iterator_ascend` never skips a decrement; `ascendTo_w`: the depth alignment never pops the root while the other cursor
+is alive) and on `catchUp_done` (a cursor becomes done only at the end of its root). -/
+theorem walk_reaches_end (al : AliasTable) (fixed : Bool) (old new : Tree) (diffs : List TSRange)
+    (hso : AllSized old) (hsn : AllSized new) (hentry : entryOK old new = true)
+    (hro : rootOK old = true) (hrn : rootOK new = true)
+    (hfuel : (changedRanges al fixed old new diffs).fuelOut = false) :
+    min old.totalBytes new.totalBytes ≤ spansEnd (loopStart old new) (changedRanges al fixed old new diffs).spans :=
+  walk_reach al fixed old new diffs hso hsn hentry hro hrn hfuel
+
+/-- `changed_covers_all` — the coverage clause for the WHOLE extent of the two trees: under the premises above and
+MatchSound/PassSound, EVERY byte from the start of the earlier root to the end of the longer tree whose stacks differ
+lies in a reported range (bytes before the later root start and after the end of the shorter tree are reported
+whatever their stacks).  No per-case `reach`. -/
+theorem changed_covers_all {α : Type} (al : AliasTable) (fixed : Bool) (old new : Tree)
+    (diffs : List TSRange) (so sn : Nat → α)
+    (hso : AllSized old) (hsn : AllSized new) (hentry : entryOK old new = true)
+    (hro : rootOK old = true) (hrn : rootOK new = true)
+    (hfuel : (changedRanges al fixed old new diffs).fuelOut = false)
+    (hsound : ∀ sp ∈ (changedRanges al fixed old new diffs).spans, sp.2.2 ≠ 0 →
+      ∀ p, sp.1.bytes ≤ p → p < sp.2.1.bytes → so p = sn p) :
+    ∀ p, firstStart old new ≤ p → p < max old.totalBytes new.totalBytes → so p ≠ sn p →
+      mem (changedRanges al fixed old new diffs).ranges p := by
+  obtain ⟨c1, c2⟩ := changed_covers al fixed old new diffs so sn hso hsn hentry hfuel hsound
+  have hr := walk_reaches_end al fixed old new diffs hso hsn hentry hro hrn hfuel
+  intro p h1 h2 hne
+  by_cases hlo : p < loopStart old new
+  · rcases pre_shape' al fixed old new diffs with ⟨_, he⟩ | ⟨a, b, hp, ha, hb⟩
+    · omega
+    · exact c2 (a, b) (by rw [hp]; simp) p (by simp only; omega) (by simp only; omega)
+  · by_cases hin : p < spansEnd (loopStart old new) (changedRanges al fixed old new diffs).spans
+    · exact c1 p (by omega) hin hne
+    · rcases post_shape al fixed old new diffs with h0 | ⟨a, b, hp, ha, hb, _⟩
+      · exfalso
+        -- no post call: both trees have the same total
+        have : old.totalBytes = new.totalBytes := by
+          unfold changedRanges changedTrace at h0
+          simp only at h0
+          rw [totalSize_bytes, totalSize_bytes] at h0
+          split at h0
+          · cases h0
+          · split at h0
+            · cases h0
+            · omega
+        omega
+      · exact c2 (a, b) (by rw [hp]; simp) p (by simp only; omega) (by simp only; omega)
 
 /-- The entry premise holds whenever both roots start at the same offset (the usual case: the old tree was edited
 to the new text, so both start after the same leading padding). -/
